@@ -486,6 +486,43 @@ impl MerkleTree {
         }
     @*/
 
+    /// the 40-byte record of a node in the tree store: at byte 40 * index, little-endian u64 size, then the 32-byte hash
+    pub open spec fn node_record(info: StoreInfo, n: Node) -> bool {
+        info.store == Store::Tree && info.info_type == StoreInfoType::Content && !info.miss && info.index == 40 * n.index
+            && info.data is Some && info.data->Some_0@ == le_bytes(n.length, 8) + n.hash@
+    }
+    /*@ fn src/tree/merkle_tree.rs MerkleTree::flush_nodes
+    tags: C05 C06 C02
+    result: r
+    requires:
+        forall|k: u64| #![trigger old(self).unflushed@[k]] old(self).unflushed@.contains_key(k) ==> old(self).unflushed@[k].hash@.len() == 32 && old(self).unflushed@[k].index < 0x400_0000_0000_0000
+    ensures:
+        final(self).roots == old(self).roots, final(self).length == old(self).length, final(self).byte_length == old(self).byte_length,
+        final(self).fork == old(self).fork, final(self).signature == old(self).signature,
+        final(self).truncated == old(self).truncated, final(self).truncate_to == old(self).truncate_to,
+        final(self).unflushed@ == Map::<u64, Node>::empty(),
+        // C05 / C06: exactly one write per pending node (in the enumeration order of the map), each the node's 40-byte record
+        r@.len() == intmap::drain_keys(old(self).unflushed@).len(),
+        forall|i: int| 0 <= i < r@.len() ==> old(self).unflushed@.contains_key(#[trigger] intmap::drain_keys(old(self).unflushed@)[i])
+            && Self::node_record(r@[i], old(self).unflushed@[intmap::drain_keys(old(self).unflushed@)[i]])
+    sub `for \(_, node\) in self\.unflushed\.drain\(\) \{` => `let vp_nodes = intmap::vp_drain(&mut self.unflushed); let mut vp_i: usize = 0; while vp_i < vp_nodes.len() { let node = &vp_nodes[vp_i]; vp_i += 1;`
+    sub `(?s)\(\|\| \{\s*let hash = (as_array::<32>\(&node\.hash\))\?;\s*Ok::<Box<\[u8\]>, EncodingError>\(to_encoded_bytes!\(\s*([^,]+?),\s*hash\s*\)\)\s*\}\)\(\)\s*\.expect\("[^"]*"\)` => `vp_enc2(\2, vp_expect_ok(\1))`
+    first:
+        let ghost m0 = self.unflushed@;
+    loop 1:
+        invariant
+            self.roots == old(self).roots, self.length == old(self).length, self.byte_length == old(self).byte_length, self.fork == old(self).fork,
+            self.signature == old(self).signature, self.truncated == old(self).truncated, self.truncate_to == old(self).truncate_to,
+            self.unflushed@ == Map::<u64, Node>::empty(), m0 == old(self).unflushed@,
+            vp_i <= vp_nodes@.len(), infos_to_flush@.len() == vp_i, vp_nodes@.len() == intmap::drain_keys(m0).len(),
+            forall|i: int| 0 <= i < vp_nodes@.len() ==> m0.contains_key(#[trigger] intmap::drain_keys(m0)[i]) && vp_nodes@[i] == m0[intmap::drain_keys(m0)[i]],
+            forall|k: u64| #![trigger m0[k]] m0.contains_key(k) ==> m0[k].hash@.len() == 32 && m0[k].index < 0x400_0000_0000_0000,
+            forall|i: int| 0 <= i < vp_i ==> Self::node_record(#[trigger] infos_to_flush@[i], vp_nodes@[i])
+        decreases vp_nodes@.len() - vp_i
+    before `let buffer =`:
+        proof { let k = intmap::drain_keys(m0)[vp_i - 1]; assert(m0.contains_key(k) && *node == m0[k]); assert(m0[k].hash@.len() == 32); }
+    @*/
+
     /// a tree that holds blocks has a signature over them (established by open / commit)
     pub open spec fn sig_wf(&self) -> bool { self.length > 0 ==> self.signature is Some }
 
